@@ -1,5 +1,5 @@
 (* C02 Bind parameters are exactly what the route pattern captured. *)
-Require Import Base Regex RegexProofs Route Tree TreeProofs SegProofs Router RouterProofs.
+Require Import Base Regex RegexProofs Route Tree TreeProofs SegProofs Router RouterProofs TreeAdd UrlPath Inverse.
 
 (* a regex-style segment: the values are the parts of the segment matched by each bind's own
    expression in full, literal pieces match literally (byte for byte), the parts concatenate to the
@@ -26,6 +26,18 @@ Theorem C02_delivered_values : forall st mi path hdrs rid ps,
                    adm ks (segs_of path) raw /\ ps = map (fun p => (fst p, decode1 (snd p))) raw.
 Proof. exact serve_tree_sound. Qed.
 
+(* consequently substituting the values back into the route reproduces the request path: for every form
+   of a registered route and every derivation, with the optional segment iff the form has it *)
+Theorem C02_roundtrip : forall compile, (forall src r, compile src = Some r -> gidx r = []) ->
+  forall r l ks segs ps, news compile true [] false r = Some l -> In ks l -> adm ks segs ps -> nonfinal_plain r ->
+  exists wo, fill ps (route_skel' r wo) = path_text segs.
+Proof. exact inverse_own_params. Qed.
+
+(* no value belongs to a different bind: the names along a form are pairwise distinct and are, in order,
+   the binds of its kinds *)
+Theorem C02_names : forall ks segs ps, adm ks segs ps -> map fst ps = rbinds ks.
+Proof. exact adm_names. Qed.
+
 Example C02_example :   (* /{a: /(x|y)z/}-{b: /w+/} on "xz-ww" gives a=xz, b=ww *)
   seg_match (KRegex [PBind [97]%N (Cat (Alt (lit_re [120]%N) (lit_re [121]%N)) (lit_re [122]%N));
                      PLit [45]%N; PBind [98]%N (plus (lit_re [119]%N))]) [120; 122; 45; 119; 119]%N
@@ -35,3 +47,4 @@ Proof. vm_compute. reflexivity. Qed.
 Redirect "assum/C02.1" Print Assumptions C02_regex_segment_values.
 Redirect "assum/C02.2" Print Assumptions C02_regex_segment_accepts.
 Redirect "assum/C02.3" Print Assumptions C02_delivered_values.
+Redirect "assum/C02.4" Print Assumptions C02_roundtrip.
